@@ -96,6 +96,9 @@ def gen_plan(rng, tier, i, seed):
         params["min_avg_coverage"] = rng.choice(["5", "1000", "1000"])
     if rng.random() < 0.2:
         params["phase"] = rng.choice(["True", "False"])
+    if rng.random() < 0.25:
+        # few phasing variables: the minor model down-samples the phase records (order matters there)
+        params["minor_phase_vars"] = rng.choice(["8", "20", "40"])
     cn = None
     if rng.random() < 0.15 or (fault == "failing_gene" and rng.random() < 0.5):
         # (with a user-supplied structure the gene nobody sequenced must be refused on replay as well)
@@ -108,7 +111,9 @@ def gen_plan(rng, tier, i, seed):
             if fault == "failing_gene":
                 fault = "none"
                 genes = list(names)
+    rebuild = (fault == "none" and profile_name is None and rng.random() < 0.2)
     return {
+        "rebuild": rebuild,
         "w": w,
         "genes": genes,
         "params": params,
@@ -154,6 +159,8 @@ def execute(plan, runner, rundir):
         rp = runner.segment(dict(common, kind="replay", tag="r", **plan["replay"]), timeout=900) if wr["archive"] else None
         return {"direct": ref, "write": wr, "replay": rp}
     w = plan["w"]
+    if plan.get("rebuild"):
+        return _execute_rebuild(plan, runner, rundir)
     wd, (worlddir, man) = _materialise(runner, w)
     common = {"worlddir": worlddir, "man": man, "rundir": rundir, "build": w["build"], "genes": plan["genes"],
               "params": plan["params"], "cn": plan["cn"], "out": plan["out"], "profile_name": plan.get("profile_name")}
@@ -181,6 +188,37 @@ def execute(plan, runner, rundir):
     return {"direct": ref, "write": wr, "replay": rp}
 
 
+def _execute_rebuild(plan, runner, rundir):
+    """One process: archive written for the hg19 alignments and replayed, then the SAME debug name is
+    reused for the hg38 alignments of the same sample and replayed again."""
+    w = plan["w"]
+    res = {"rebuild": True, "direct": {}, "steps": None}
+    mans = {}
+    for build in ("hg19", "hg38"):
+        wb = dict(w, build=build)
+        wd, (worlddir, man) = _materialise(runner, wb)
+        mans[build] = (wd, worlddir, man)
+        common = {"worlddir": worlddir, "man": man, "build": build, "genes": plan["genes"], "params": plan["params"],
+                  "cn": plan["cn"], "out": plan["out"], "profile_name": None}
+
+        def direct(common=common):
+            rd = runner.new_dir("direct")
+            try:
+                return runner.segment(dict(common, kind="direct", hashseed=0, cwd="run", rundir=rd, clock={}, tag="d"))
+            finally:
+                import shutil
+
+                shutil.rmtree(rd, ignore_errors=True)
+
+        res["direct"][build] = runner.memoised(("direct", wd, canon.digest([plan["genes"], plan["params"], plan["cn"],
+                                                                         plan["out"], None])), direct)
+    res["steps"] = runner.segment({"kind": "rebuild", "hashseed": plan["replay"]["hashseed"], "rundir": rundir,
+                                   "worlds": {b: {"worlddir": mans[b][1], "man": mans[b][2]} for b in mans},
+                                   "genes": plan["genes"], "params": plan["params"], "cn": plan["cn"],
+                                   "out": plan["out"], "profile_name": None, "cwd": "run", "clock": {}, "tag": "rb"})
+    return res
+
+
 def _cmp(a, b):
     d = canon.first_diff(canon.strip_scores(a), canon.strip_scores(b))
     if d:
@@ -197,6 +235,22 @@ def _v(clause, **detail):
 
 def judge(plan, outcome):
     vs = []
+    if outcome.get("rebuild"):
+        for build in ("hg19", "hg38"):
+            ref = outcome["direct"][build]
+            rp = outcome["steps"][build]
+            env = {"mode": "same process, same debug name, two builds", "build": build, "genes": plan["genes"],
+                   "params": plan["params"]}
+            if not rp["archive"]:
+                vs.append(_v("no debug archive was produced", **env))
+                continue
+            d = _cmp(rp["results"], ref["results"])
+            if d:
+                vs.append(_v("replayed result differs from genotyping the alignments", diff=d,
+                             got=canon.jdump(rp["results"])[:400], want=canon.jdump(ref["results"])[:400], **env))
+            if rp["output"] != ref["output"]:
+                vs.append(_v("replayed output file differs from the direct run's output file", **env))
+        return vs
     ref, wr, rp = outcome["direct"], outcome["write"], outcome["replay"]
     env = {"fault": plan["fault"], "fired": wr["fired"], "genes": plan["genes"], "params": plan["params"],
            "write_hashseed": plan["write"]["hashseed"], "replay_hashseed": plan["replay"]["hashseed"]}
@@ -284,6 +338,10 @@ def count_evaluations(plan, out):
 
 def update_stats(acc, plan, out):
     acc["plans"] += 1
+    if out.get("rebuild"):
+        acc["rebuild"] = acc.get("rebuild", 0) + 1
+        acc["genes_compared"] += 2 * len(plan["genes"])
+        return
     acc["faults"][plan["fault"]] = acc["faults"].get(plan["fault"], 0) + 1
     for k, v in out["write"]["fired"].items():
         acc["fired"][k] = acc["fired"].get(k, 0) + v
@@ -314,6 +372,8 @@ def update_stats(acc, plan, out):
 
 
 def sample_view(plan, out):
+    if out.get("rebuild"):
+        return {"mode": "rebuild", "genes": plan["genes"], "params": plan["params"]}
     return {"genes": plan["genes"], "params": plan["params"], "cn": plan["cn"], "out": plan["out"],
             "fault": plan["fault"], "write": plan["write"], "replay": plan["replay"],
             "sample": plan["w"]["samples"]["s0"]["genes"] if plan["w"] else plan.get("shipped"), "archive_members": out["write"]["members"],
@@ -339,6 +399,7 @@ def evidence(acc):
                 "genes_compared": acc["genes_compared"],
                 "replay_clock_backward_jumps": acc["clock_backward"],
                 "shipped_NA10860_sessions": acc.get("shipped", 0),
+                "same_process_two_build_sessions": acc.get("rebuild", 0),
             },
             "components": {
                 "real": ["aldy.__main__.main (argument parsing, debug archive, tar via os.system)", "aldy.sam dump "
@@ -444,6 +505,8 @@ def run_segment(seg):
         from aldy.common import script_path
 
         wd, man = rd, {"samples": {"s0": script_path("aldy.tests.resources/" + seg["shipped"])}}
+    elif seg["kind"] == "rebuild":
+        wd, man = rd, None
     else:
         wd, man = seg["worlddir"], seg["man"]
     os.makedirs(rd, exist_ok=True)
@@ -456,6 +519,20 @@ def run_segment(seg):
         os.environ["TMPDIR"] = t
         tempfile.tempdir = t
     calls = _install_genotype_recorder()
+    if seg["kind"] == "rebuild":
+        out = {}
+        prefix = os.path.join(rd, "dbg")
+        for build in ("hg19", "hg38"):
+            sub = dict(seg, build=build, **seg["worlds"][build])
+            bam_b = os.path.join(sub["worlddir"], sub["man"]["samples"]["s0"])
+            O.run_main(_argv(sub, bam_b, debug=prefix, outp=os.path.join(rd, f"w-{build}.{seg['out']}")))
+            del calls[:]
+            outp_b = os.path.join(rd, f"r-{build}.{seg['out']}")
+            O.run_main(_argv(sub, prefix + ".tar.gz", outp=outp_b, with_profile=False))
+            out[build] = {"archive": os.path.exists(prefix + ".tar.gz"), "results": _collect(calls),
+                          "output": open(outp_b).read() if os.path.exists(outp_b) else None}
+            del calls[:]
+        return out
     bam = os.path.join(wd, man["samples"]["s0"])
     prefix = os.path.join(rd, "dbg")
     outp = os.path.join(rd, f"out-{seg['tag']}.{seg['out']}")
